@@ -7,6 +7,7 @@ import signal
 import threading
 
 SEP1, SEP2, SEP4 = '\x01', '\x02', '\x04'
+SKIPPED = {}        # helper-level tie / shortcut -> why it was skipped (for the evidence)
 MODULUS = 2147483647
 
 
@@ -233,10 +234,10 @@ def f_lower(s):
     return s.lower()
 
 
-@guarded
-def f_front(s):
-    '''MIP.cards(blocks, skipcomments=True) + Card.content on a text held in
-    memory (MIP.__init__ = read the file + get_block_positions).'''
+FRONT_VIA_FILE = [None]     # None = not probed yet
+
+
+def _front_memory(s):
     from MIP.mip.main import MIP
     from MIP.mip.blocks import get_block_positions
     parser = object.__new__(MIP)
@@ -247,8 +248,7 @@ def f_front(s):
                       for b in 'csd'])
 
 
-@guarded
-def f_front_file(s):
+def _front_file(s):
     import impl
     from MIP.mip.main import MIP
     with impl.scratch_dir() as tmp:
@@ -258,6 +258,34 @@ def f_front_file(s):
         return ser_list2([[c.content() for c in
                            parser.cards(blocks=b, skipcomments=True)]
                           for b in 'csd'])
+
+
+def front_in_memory():
+    '''The in-memory route fills two attributes of the MIP object by hand
+    (private state): it is used only while it gives what MIP(file) gives on a
+    probe deck; otherwise every call goes through a scratch file.'''
+    if FRONT_VIA_FILE[0] is None:
+        probe = 't\n1 0 -1 $ x\n     imp:n=1\n\n1 so 5\n\nnps 1\n'
+        try:
+            FRONT_VIA_FILE[0] = _front_memory(probe) != _front_file(probe)
+        except Exception:       # pylint: disable=broad-except
+            FRONT_VIA_FILE[0] = True
+        if FRONT_VIA_FILE[0]:
+            SKIPPED['front (in memory)'] = ('attributes of the MIP object not as '
+                                            'expected: every call goes through a file')
+    return not FRONT_VIA_FILE[0]
+
+
+@guarded
+def f_front(s):
+    '''MIP.cards(blocks, skipcomments=True) + Card.content on a text (MIP.__init__
+    = read the file + get_block_positions).'''
+    return _front_memory(s) if front_in_memory() else _front_file(s)
+
+
+@guarded
+def f_front_file(s):
+    return _front_file(s)
 
 
 def f_front_all(s):
@@ -375,7 +403,6 @@ PROBES = {
     'opt_tokens': ('imp:n=1 u=2', ser_list(['imp:n', '1', 'u', '2'])),
     'to_float': ('1.5d3', 'X1.5e3'),
 }
-SKIPPED = {}        # helper-level tie -> why it was skipped (for the evidence)
 _AVAILABLE = {}
 
 
